@@ -123,6 +123,11 @@ static void pgen_crypt(phist *h, vh_rng *r, unsigned g, uint32_t *budget)
     if (vh_below(r, 8)) vh_rand_bytes(r, h->pool + h->pool_n, o->dlen); else memset(h->pool + h->pool_n, vh_below(r, 2) ? 0 : 0xFF, o->dlen);
     h->pool_n += o->dlen;
     if (!vh_below(r, 3)) o->flags |= F_INPLACE;
+    if (per == 2 && bytes) {     /* Mantis: aliasing of the tweak array with the data buffers */
+        unsigned a = vh_below(r, 12);
+        if (a == 0) { o->flags |= F_TWEAK_IN; memcpy(h->pool + o->doff + bytes, h->pool + o->doff, bytes); }
+        else if (a == 1 && !(o->flags & F_INPLACE)) o->flags |= F_TWEAK_OUT;
+    }
     pplace(o, r, g);
     *budget -= bytes * per;
 }
@@ -281,7 +286,9 @@ void phist_exec(const phist *h, int i, vh_obj *ob, ctrans *t, const char *prefix
         ua = 2;
         memcpy(in, h->pool + o->doff, o->len);
         if (o->flags & F_INPLACE) out = in; else { out = pl(2, o, 1, o->len); ub = 1; memset(out, 0xEE, o->len); vh_make_undef(out, o->len); }
-        if (c->id == CIPH_MANTIS) { tw = pl(3, o, 0, o->len); ut = 1; memcpy(tw, h->pool + o->doff + o->len, o->len); }
+        if (c->id == CIPH_MANTIS && (o->flags & F_TWEAK_IN)) tw = in;
+        else if (c->id == CIPH_MANTIS && (o->flags & F_TWEAK_OUT) && !(o->flags & F_INPLACE)) { tw = out; vh_make_def(out, o->len); memcpy(out, h->pool + o->doff + o->len, o->len); }
+        else if (c->id == CIPH_MANTIS) { tw = pl(3, o, 0, o->len); ut = 1; memcpy(tw, h->pool + o->doff + o->len, o->len); }
         vh_call_begin(o->kind == P_DECRYPT ? "parallel_ecb_decrypt" : "parallel_ecb_encrypt");
         ret = (o->kind == P_DECRYPT ? c->par_decrypt : c->par_encrypt)((o->flags & F_NULL_OUT) ? NULL : out, (o->flags & F_NULL_IN) ? NULL : in, tw, o->len, obj);
         vh_call_end();
@@ -320,6 +327,8 @@ void phist_json(const phist *h, vh_sb *s)
         if (o->cls && strcmp(o->cls, p_kind_names[o->kind])) sb_printf(s, ",\"class\":\"%s\"", o->cls);
         if (o->kind == P_SET_KEY || o->kind == P_ENCRYPT || o->kind == P_DECRYPT) {
             sb_printf(s, ",\"len\":%u", o->len);
+            if (o->flags & F_TWEAK_IN) sb_printf(s, ",\"tweak_array\":\"is the input buffer\"");
+            if ((o->flags & F_TWEAK_OUT) && !(o->flags & F_INPLACE)) sb_printf(s, ",\"tweak_array\":\"lies in the output buffer\"");
             if (h->c->id == CIPH_MANTIS && o->kind == P_SET_KEY) sb_printf(s, ",\"rounds\":%u,\"mode\":%u", o->rounds, h->mode[i]);
             if (o->flags & F_NULL_PTR) sb_printf(s, ",\"data\":null");
             else { sb_printf(s, ",\"data\":"); sb_hexn(s, h->pool + o->doff, o->dlen, 40); }
